@@ -196,6 +196,40 @@ func execOp(h *WHub, op Op) error {
 		if _, err := h.Dsm.UpdateDataset(op.Name, &server.UpdateDatasetConfig{ID: op.ID}); err != nil {
 			return fmt.Errorf("UpdateDataset(%s -> %s): %w", op.Name, op.ID, err)
 		}
+	case "pubns":
+		// the documented way to configure public namespaces: rewrite the dataset's meta-entity in
+		// core.Dataset (read-modify-write, the list always present; op.Scope holds the list)
+		metas, err := h.Latest("core.Dataset", nil)
+		if err != nil {
+			return fmt.Errorf("listing core.Dataset: %w", err)
+		}
+		var me *kit.Ent
+		for _, e := range metas {
+			if _, n, _ := strings.Cut(e.ID, ":"); n == op.Name && !e.Deleted {
+				me = e.Clone()
+			}
+		}
+		if me == nil {
+			return fmt.Errorf("CATALOGUE-META no live meta-entity for existing dataset %s", op.Name)
+		}
+		prefix, _, _ := strings.Cut(me.ID, ":")
+		arr := make([]any, len(op.Scope))
+		for i, ns := range op.Scope {
+			arr[i] = ns
+		}
+		me.Props[prefix+":publicNamespaces"] = arr
+		if err := h.StoreBatch("core.Dataset", []*kit.Ent{me}, "store"); err != nil {
+			return fmt.Errorf("storing the meta-entity of %s: %w", op.Name, err)
+		}
+	case "badbatch":
+		// valid entities followed by one that cannot be stored (a null inside a reference array): the
+		// batch is rejected as a whole
+		es := append([]*kit.Ent{}, op.Ents...)
+		bad := &kit.Ent{ID: h.P[0] + ":bad", Props: map[string]any{}, Refs: map[string]any{h.P[0] + ":r0": []any{nil}}}
+		es = append(es, bad)
+		if err := h.StoreBatch(op.DS, es, "store"); err == nil {
+			return fmt.Errorf("REJECTED-BATCH-ACCEPTED a batch whose last element carries a null reference was stored in %s", op.DS)
+		}
 	case "token":
 		if err := h.Store.StoreObject(server.JobDataIndex, op.Name, map[string]any{"id": op.Name, "token": fmt.Sprint(op.N)}); err != nil {
 			return fmt.Errorf("StoreObject: %w", err)
@@ -495,6 +529,35 @@ func (g *gm) applyGC(op Op) {
 	g.checkNoKeysOfDeadDatasets()
 }
 
+// applyPubNS sets the public namespaces of a dataset (op.Scope) through its meta-entity.
+func (g *gm) applyPubNS(op Op) {
+	g.record(op)
+	if g.h != nil {
+		if err := execOp(g.h, op); err != nil {
+			g.fail("%v", err)
+		}
+	}
+	if g.pubNS == nil {
+		g.pubNS = map[*kit.MDataset][]string{}
+	}
+	g.pubNS[g.m.DS[op.Name]] = op.Scope
+	g.cls["public-namespaces-set"] = true
+	if len(op.Scope) == 0 {
+		g.cls["public-namespaces-emptied"] = true
+	}
+}
+
+// applyBadBatch: a rejected batch changes nothing (the model is not touched).
+func (g *gm) applyBadBatch(op Op) {
+	g.record(op)
+	if g.h != nil {
+		if err := execOp(g.h, op); err != nil {
+			g.fail("%v", err)
+		}
+	}
+	g.cls["rejected-batch"] = true
+}
+
 func (g *gm) applyRestart(op Op) {
 	g.record(op)
 	if g.h != nil {
@@ -520,6 +583,10 @@ func (g *gm) applyOp(op Op) {
 		g.applyGC(op)
 	case "restart":
 		g.applyRestart(op)
+	case "pubns":
+		g.applyPubNS(op)
+	case "badbatch":
+		g.applyBadBatch(op)
 	case "token":
 		g.record(op)
 		if g.h != nil {
